@@ -33,3 +33,4 @@ def check(ctx):
     ctx.floor("TIMEEQ", 2)
     once.filter_tolerance(ctx)
     drivers.run_loops(ctx)
+    drivers.evaluation_time_filter(ctx)
